@@ -93,7 +93,7 @@ fn main() {
                 // P17 on the implementation's own answers
                 let prog = r.prog_start.len() - 1;
                 for n in &results_notes[prog].1 {
-                    r.violations.push((prog, vec!["C17"], r.ops.len(), n.clone()));
+                    r.violations.push((prog, if n.starts_with("server-dead") { vec!["C17", "C18"] } else { vec!["C17"] }, r.ops.len(), n.clone()));
                 }
                 let mut limit = 0usize;
                 let mut open: std::collections::BTreeSet<usize> = Default::default();
